@@ -1519,8 +1519,8 @@ func (r *Regex) AllIndex(b []byte) iter.Seq[[2]int] {
 			if start != end {
 				lastMatchEnd = end
 			}
-			if end == pos {
-				pos = nextPos(b, pos)
+			if start == end {
+				pos = nextPos(b, end)
 			} else {
 				pos = end
 			}
